@@ -45,6 +45,9 @@ run seeded/S-C10d/patch.diff C10
 run seeded/S-C04d/patch.diff C04
 run seeded/S-C06d/patch.diff C06
 run seeded/S-C12d/patch.diff C12
+run seeded/S-C03d/patch.diff C03
+run seeded/S-C05d/patch.diff C05
+run seeded/S-C13d/patch.diff C13
 run mutants/W01_write_swallows_io_error.patch C10
 run mutants/W02_write_skips_unrestricted_files.patch C10
 run mutants/W03_write_sorts_model_first.patch C11
